@@ -58,6 +58,7 @@ class Arr:
         assert len(self.data) == n, (self.shape, len(self.data))
         self.dtype = dtype
         self.name = name
+        self.version = 0
 
     @classmethod
     def full(cls, shape, v, dtype="float64", name=""):
@@ -358,6 +359,9 @@ class Run:
         self.feas_timeout_ms = feas_timeout_ms
         self._names_cache = {}
         self._range_cache = {}
+        self._read_cache = {}
+        self._conj_cache = {}
+        self._keepalive = []
         self.stats = {"stmts": 0, "merges": 0}
 
     # ------------------------------------------------------------------ helpers
@@ -711,6 +715,7 @@ class Run:
         old = self.ev(lhs, frame, g)
         if isinstance(old, Arr):
             new = self.binop(s.operator, old, rhs, s, g)
+            old.version += 1
             for k in range(len(old.data)):
                 old.data[k] = ite(g, new.data[k], old.data[k])
             return
@@ -967,6 +972,7 @@ class Run:
                 if a:
                     r = (-a[1], -a[0])
         self._range_cache[key] = r if r is not None else 0
+        self._keepalive.append(t)
         return r
 
     def axis_check(self, i, dim, node, g):
@@ -1058,7 +1064,10 @@ class Run:
                 self.axis_check(ax, a.shape[k], node, g)
                 choices.append(ax)
         if not shape_out:
-            return self.cell_read(a, choices)
+            v = self.cell_read(a, choices)
+            if self.symbolic and isinstance(v, z3.ExprRef) and g is not True:
+                v = self.strip(v, g)
+            return v
         # build result array
         import itertools
         lists = [c if isinstance(c, list) else [c] for c in choices]
@@ -1069,6 +1078,17 @@ class Run:
 
     def cell_read(self, a, coords):
         """coords: per-axis int or symbolic int (already bounds-checked as events)"""
+        if any(is_sym(c) for c in coords):
+            key = (id(a), a.version, tuple(c.get_id() if isinstance(c, z3.ExprRef) else c for c in coords))
+            hit = self._read_cache.get(key)
+            if hit is not None:
+                return hit[0]
+            v = self._cell_read(a, coords)
+            self._read_cache[key] = (v, a, list(coords))
+            return v
+        return self._cell_read(a, coords)
+
+    def _cell_read(self, a, coords):
         st = a.strides()
 
         def rec(k, off):
@@ -1141,6 +1161,7 @@ class Run:
             self.cell_write(a, list(c), self.coerce(x, ct), g)
 
     def cell_write(self, a, coords, v, g):
+        a.version += 1
         st = a.strides()
         if all(not is_sym(c) for c in coords):
             if any(c < 0 or c >= a.shape[k] for k, c in enumerate(coords)):
@@ -1190,12 +1211,64 @@ class Run:
     e_BytesNode = e_UnicodeNode
     e_IdentifierStringNode = e_UnicodeNode
 
+    def conj_ids(self, G):
+        """ids of the conjuncts of guard G (flattened), cached"""
+        if not isinstance(G, z3.BoolRef):
+            return ()
+        key = G.get_id()
+        c = self._conj_cache.get(key)
+        if c is not None:
+            return c
+        out = set()
+        stack = [G]
+        while stack:
+            t = stack.pop()
+            if z3.is_and(t):
+                stack.extend(t.children())
+            else:
+                out.add(t.get_id())
+        self._conj_cache[key] = out
+        self._keepalive.append(G)
+        return out
+
+    def strip(self, v, G):
+        """simplify nested If(c, a, b) whose condition (or its negation) is a conjunct of the current guard"""
+        if G is True or not isinstance(v, z3.ExprRef):
+            return v
+        ids = None
+        k = 0
+        while isinstance(v, z3.ExprRef) and z3.is_app(v) and v.decl().kind() == z3.Z3_OP_ITE and k < 50:
+            if ids is None:
+                ids = self.conj_ids(G)
+                if not ids:
+                    return v
+            c = v.arg(0)
+            if c.get_id() in ids:
+                v = v.arg(1)
+            elif z3.is_not(c) and False:
+                break
+            else:
+                nc = c.arg(0) if z3.is_not(c) else z3.Not(c)
+                if nc.get_id() in ids:
+                    v = v.arg(2)
+                elif z3.is_and(c):
+                    if self.conj_ids(c) <= ids:
+                        v = v.arg(1)
+                    else:
+                        break
+                else:
+                    break
+            k += 1
+        return sx.conc(v) if isinstance(v, z3.ExprRef) else v
+
     def e_NameNode(self, n, frame, g):
         nm = n.name
         if nm in frame.env:
             v = frame.env[nm]
             if v is UNDEF:
                 self.event("UnboundLocalError", True, n, g)
+            elif self.symbolic and isinstance(v, z3.ExprRef):
+                v = self.strip(v, g)
             return v
         if nm in self.mod.funcs:
             return self.mod.funcs[nm]
@@ -1517,6 +1590,7 @@ class Run:
                 v = args[0]
                 ct = ("int", 64) if obj.is_int() else ("float", 64)
                 v = self.coerce(v, ct)
+                obj.version += 1
                 for k in range(len(obj.data)):
                     obj.data[k] = v if g is True else self.merge(g, v, obj.data[k])
                 return None
